@@ -38,7 +38,13 @@ def make_pair(rng):
         b = G.star_polygon(rng, n=rng.randint(3, 9), R=10.0)
         return kind, fk, pl, Polygon2D([P2(p) for p in b]), Face3D([emb(p) for p in b], pl)
     if kind == 'mesh':
-        v, f = Bd.tri_quad_mesh2d(rng)
+        if rng.random() < 0.25:
+            # several faces on one edge (a non-manifold fan; the faces overlap in the plane, which the mesh classes allow)
+            k = rng.randint(3, 6)
+            v = [(0.0, 0.0), (4.0, 0.0)] + [(G.dy(rng.uniform(-2, 6)), G.dy(rng.uniform(1, 6)) * (1 if i % 2 == 0 else -1)) for i in range(k)]
+            f = [(0, 1, 2 + i) for i in range(k)]
+        else:
+            v, f = Bd.tri_quad_mesh2d(rng)
         return kind, fk, pl, Mesh2D([P2(p) for p in v], f), Mesh3D([emb(p) for p in v], f)
     if kind == 'segment':
         p, v = G.rpt2(rng, 20), G.rvec2(rng, 10)
@@ -129,6 +135,34 @@ def fam_pairs(ctx, rng):
         if not agree(to2(pl, va), to2(pl, vb), scale):
             cls = 'quad' if kind == 'mesh' and any(len(f) == 4 for f in a.faces) else ''
             ctx.violation('%s:%s%s' % (kind, name, ':' + cls if cls else ''), '2D %s vs 3D %s' % (short(va), short(vb)), dict(desc, member=name))
+    if kind == 'mesh':
+        for nm in ('naked_edges', 'internal_edges', 'non_manifold_edges', 'edges'):
+            la, lb = len(getattr(a, nm)), len(getattr(b, nm))
+            ctx.count('pair.mesh', key=(fk, nm))
+            if la != lb:
+                ctx.violation('mesh:%s:count' % nm, '%d %s in 2D, %d in 3D' % (la, nm, lb), dict(desc, member=nm))
+    # both siblings have now answered their properties; the same similarity applied to both must keep them in agreement
+    if kind in ('polygon', 'mesh', 'segment', 'polyline'):
+        k_ = G.dy(rng.uniform(0.3, 3)); o2 = G.rpt2(rng, 10); mv = G.rvec2(rng, 10)
+        o3 = pl.xy_to_xyz(P2(o2))
+        mv3 = V3(tuple(mv[0] * pl.x[i] + mv[1] * pl.y[i] for i in range(3)))
+        for tname, ta, tb in (('scale', lambda: a.scale(k_, P2(o2)), lambda: b.scale(k_, o3)),
+                              ('move', lambda: a.move(V2(mv)), lambda: b.move(mv3))):
+            try:
+                a2, b2 = ta(), tb()
+            except Exception as e:
+                ctx.violation('%s:%s:raises' % (kind, tname), '%r' % (e,), desc); continue
+            for name in members(a2, b2):
+                if name in ('is_self_intersecting',):
+                    continue
+                try:
+                    va = getattr(a2, name); vb = getattr(b2, name)
+                except Exception:
+                    continue
+                ctx.count('pair.%s' % kind, key=(fk, tname, name))
+                if not agree(to2(pl, va), to2(pl, vb), scale * max(1.0, k_)):
+                    ctx.violation('%s:%s_after_%s' % (kind, name, tname), 'after %s of both siblings: 2D %s vs 3D %s' % (tname, short(va), short(vb)),
+                                  dict(desc, member=name, transform=tname))
     # parametrised shared methods
     if kind in ('segment', 'ray', 'arc'):
         t = rng.random()
